@@ -1449,10 +1449,13 @@ func asUncatchableException(v interface{}) error {
 func (r *Runtime) RunProgram(p *Program) (result Value, err error) {
 	vm := r.vm
 	recursive := len(vm.callStack) > 0
+	entered := false
 	defer func() {
 		if recursive {
-			vm.sp -= 2
-			vm.popCtx()
+			if entered { // pushCtx() may have failed with a stack overflow, in that case there is nothing to undo
+				vm.sp -= 2
+				vm.popCtx()
+			}
 		} else {
 			vm.callStack = vm.callStack[:len(vm.callStack)-1]
 		}
@@ -1479,6 +1482,7 @@ func (r *Runtime) RunProgram(p *Program) (result Value, err error) {
 		vm.stack[sp+1] = nil      // 'this'
 		vm.sb = sp + 1
 		vm.sp = sp + 2
+		entered = true
 	} else {
 		vm.callStack = append(vm.callStack, context{})
 	}
